@@ -293,6 +293,8 @@ impl From<EncryptError> for AnyhowError { #[verifier::external_body] fn from(e: 
 // --- std::env::var and passterm as the password prompts use them (rule R1: std::env:: -> venv::)
 /// the value of an environment variable exactly as the user supplied it
 pub uninterp spec fn env_value(name: Seq<char>) -> Seq<char>;
+/// the variable is present and valid Unicode (whatever its value, the empty string included)
+pub uninterp spec fn env_set(name: Seq<char>) -> bool;
 pub mod venv {
     use vstd::prelude::*;
     use super::*;
@@ -310,7 +312,7 @@ pub mod venv {
     pub fn var_os(name: &str) -> (r: Option<OsString0>) { unimplemented!() }
     #[verifier::external_body]
     pub fn var(name: &str) -> (r: Result<String, VarError>)
-        ensures r matches Ok(s) ==> s@ == env_value(name@)
+        ensures r matches Ok(s) ==> s@ == env_value(name@), (r is Ok) == super::env_set(name@)
     { unimplemented!() }
 }
 pub mod passterm {
